@@ -6,7 +6,7 @@
  *   gen <seedhex> <msghex|->
  *        -> R gen ok=<sign ret> v=<verify ret> PK <pk tokens> SIG <sig tokens>
  *   verify PK <pk tokens> SIG <sig tokens> MSG <msghex|->
- *        -> R v=<0|1> n=<chain length|-> ord=<6 bits|-> ker=<bit|-> H=<hex|-> H2=<hex|-> jcom=<hex|-> jalt=<hex|-> jchall=<hex|-> jpk=<hex>
+ *        -> R v=<0|1> n=<chain length|-> ord=<6 bits|-> ker=<bit|-> taps=<c k t m h fired>- H=<hex|-> H2=<hex|-> jcom=<hex|-> jalt=<hex|-> jchall=<hex|-> jpk=<hex>
  * tokens
  *   pk  : Are Aim Cre Cim h0 h1                      (field elements: hex of the canonical integer; hints: decimal int)
  *   sig : (dim2)  Are Aim Cre Cim bt trl m00 m01 m10 m11 chall chall_b ha0 ha1 hc0 hc1
@@ -227,6 +227,8 @@ static void report(int v, const public_key_t *pk)
         if (tap.have_chall) printf(" ker=%d", ord2(&tap.ker, &tap.Echall, tap.ker_len)); else printf(" ker=-");
 #endif
     } else printf(" ker=-");
+    printf(" taps=%s%s%s%s%s-", tap.have_chall ? "c" : "", tap.have_ker ? "k" : "", tap.have_T == 7 ? "t" : "", tap.have_com ? "m" : "",
+           tap.nH >= 1 ? "h" : "");
     printf(" H="); if (tap.nH >= 1) ibz_print_tok(&tap.H[0]); else printf("-");
     printf(" H2="); if (tap.nH >= 2) ibz_print_tok(&tap.H[1]); else printf("-");
     print_j("jcom", &tap.Ecom, tap.have_com);
